@@ -26,7 +26,7 @@ PROPS["C08"] = {
     "technique": "metamorphic testing: permuted directory listing orders and root counts must not change the result; sortedness predicate on the output",
     "level_text": "Generated-input search with metamorphic oracles between real runs: the same tree is scanned under 2-4 independently drawn listing permutations of every directory and both directory-handle modes and must give identical, sorted output; a scan of 2-3 roots must equal the multiset union of the single-root scans with no package object repeated.",
     "level_note": "Trusted: the in-memory FS's permutation knob. Go map-iteration randomness is sampled by repeated runs, not controlled. The free-text failure reason is excluded (it concatenates errors in walk order, as the repository's own tests acknowledge); the number of status entries per plugin for several roots is not pinned by the property and not asserted.",
-    "rule": "rapid-generated trees x 2..4 listing permutations x both ReadDirFile modes x fake extractors drawing package names from a pool of 1..3 so that sort keys tie x 0..3 fake detectors with findings tying on the advisory reference; every 4th case scans 2..3 roots (distinct trees or the same tree twice); non-trivial = (single root) >=2 directories with >=2 entries and >=2 packages, (multi root) >=2 roots contributing packages; distinct by hash of the case JSON",
+    "rule": "rapid-generated trees x 2..4 listing permutations x both ReadDirFile modes x fake extractors drawing package names from a pool of 1..3 so that sort keys tie, or from pools of names/versions that are prefixes of one another around '/' (foo, foo-bar, foo.bar, foo/bar, 1.0, 1.0.1, 1.0-rc1, b/c) x 0..3 fake detectors with findings tying on the advisory reference; every 4th case scans 2..3 roots (distinct trees or the same tree twice); non-trivial = (single root) >=2 directories with >=2 entries and >=2 packages, (multi root) >=2 roots contributing packages; distinct by hash of the case JSON",
     "assumptions": ["documented order: packages by (name, version, extractor name, locations), statuses by name, findings by (advisory reference, extra)",
                     "detectors only see the first root by design and are left out of multi-root cases"],
     "legs": [{"fam": "scanfam", "run": "^TestC08$"}],
@@ -40,7 +40,7 @@ PROPS["C09"] = {
     "technique": "fault injection: enumeration of every single fault and pairs of faults over the logged FS operations of rapid-generated trees, differential against the fault-free run",
     "level_text": "For every generated small tree the fault space is enumerated rather than sampled: a fault-free probe run logs every FS operation (stat, open, k-th directory read, stat of an open file, n-th read); every single fault (operation x {permission, I/O, not-exist}) and every pair (exhaustive up to 400 pairs, else an evenly spaced sample of ~150) is injected under all 8 combinations of fatal-on-error x size limit x directory-handle mode, and the outcome is compared with the fault-free run of the same tree. The trees themselves are sampled by rapid.",
     "level_note": "Trusted: the in-memory FS's fault plan and operation log (harness/internal/memfs), the region rule of DESIGN Appendix A.5. Faults are injected at the fs.FS interface; kernel-level partial reads are not modelled. With fatal-on-error set, whether a file-level (non-traversal) fault is fatal is not pinned by the property and not asserted.",
-    "rule": "rapid-generated trees (<=12 nodes, depth <=3, .gitignore files, symlinks) x 1..2 fake extractors; per tree every single fault over every logged operation x 3 error kinds, plus pairs, x fatal-on-error on/off x size limit off/median x ReadDirFile on/off; one evaluation per (tree, options, fault set); non-trivial = the faulted operation was actually reached AND at least one Extract call outside the failing region is still expected; distinct by (scenario hash, options, fault set)",
+    "rule": "rapid-generated trees (<=12 nodes, depth <=3, .gitignore files, symlinks) x 1..2 fake extractors; a third of the scenarios list 2..4 PathsToExtract (tree nodes, sometimes a missing path); per tree every single fault over every logged operation (incl. the stat of listed paths) x 3 error kinds, sticky variants, plus pairs, x fatal-on-error on/off x size limit off/median x ReadDirFile on/off; one evaluation per (tree, options, fault set); non-trivial = the faulted operation was actually reached AND at least one Extract call outside the failing region is still expected; distinct by (scenario hash, options, fault set)",
     "assumptions": ["failing region of a fault = the subtree of the directory (stat/open/readdir on a directory, or an unreadable .gitignore) or the single file (open, stat of the handle, read, lazy stat)",
                     "an extractor that loses a required file to an open/fstat/read fault must be Failed, or PartiallySucceeded when it reported inventory elsewhere"],
     "legs": [{"fam": "scanfam", "run": "^TestC09$"}],
@@ -53,7 +53,7 @@ PROPS["C10"] = {
     "technique": "boundary-value enumeration over rapid-generated trees: every inode limit, size limit and cancellation point of each tree, with counting invariants on the recorded events and a differential against the unlimited run",
     "level_text": "Generated trees; per tree the boundary values are enumerated, not sampled: inode limits {1, n-1, n, n+1}, size limits {s-1, s, s+1} for every file size s, cancellation before the scan, inside the k-th Extract for every k and at the j-th visited inode for every j. Invariants are counted on recorded events (AfterInodeVisited, Extract calls with the size they were handed and the bytes they could read, standalone / detector runs) and compared with the unlimited run of the same tree. The image part (per-file byte limit of image loading) is a separate leg over generated tar streams.",
     "level_note": "Trusted: recording fake plugins and stats collector (harness/internal/recext), the in-memory FS. Cancellation is injected synchronously from inside a callback, so the cancellation instant is exact; asynchronous cancellation between two instructions is not explored.",
-    "rule": "rapid-generated trees (<=14 nodes, 1..2 roots, symlinks, special files) x 1..3 fake extractors x 0..2 standalone extractors x 0..2 detectors; per tree all boundary limits and all cancellation points are enumerated; one evaluation per (tree, limit or cancellation point); non-trivial = the limit is within +-1 of the quantity it bounds, or the cancellation point has work remaining after it; distinct by (scenario hash, mode, parameter). Image leg: generated layer tars with file sizes in {L-1, L, L+1, 2L} for byte limits L",
+    "rule": "rapid-generated trees (<=14 nodes, 1..2 roots, symlinks, special files) x 1..3 fake extractors x 0..2 standalone extractors x 0..2 detectors; per tree all boundary limits and all cancellation points (before the scan, inside each Extract call, at each inode, inside each standalone extractor and each detector, which then returns nil or the context's error) are enumerated; one evaluation per (tree, limit or cancellation point); non-trivial = the limit is within +-1 of the quantity it bounds, or the cancellation point has work remaining after it; distinct by (scenario hash, mode, parameter). Image leg: generated layer tars with file sizes in {L-1, L, L+1, 2L} for byte limits L",
     "assumptions": ["'the tree holds more inodes than the limit' is measured by the number of inodes the unlimited scan visits",
                     "after cancellation inside an Extract call, further extractors may still run on the same file (the property forbids extraction on any FURTHER file)"],
     "legs": [{"fam": "scanfam", "run": "^TestC10_scan$"}, {"fam": "layerfam", "run": "^TestC10_image$"}],
